@@ -622,3 +622,261 @@ def frame(R):
             return goals
 
         verify(R, "C19.frame.Code", W + "::Code.Encode", runc, label=f"{nl}-locals,{ni}-instrs")
+
+
+# ---------------------------------------------------------------------------------------------------------------------------------
+# C19.frame.unbounded: the section writers for ANY number of entries -- the entry loop is cut at an inductive invariant (pyvc.loopcut).
+
+_Z = z3.Function("entry_size", z3.IntSort(), z3.IntSort())        # Z(i): byte length of entry i
+_TS = z3.Function("entries_bytes", z3.IntSort(), z3.IntSort())    # T(k): bytes the first k entries occupy in the payload (with their size prefixes where the section has them)
+
+
+class _SymEntries:
+    """The entry list of a section with a SYMBOLIC number n of entries."""
+
+    def __init__(self, n):
+        self.n = n
+        self.sym_length = n
+
+    def __bool__(self):
+        from pyvc.sym import cur
+        return cur().decide(self.n.t > 0)
+
+    def __iter__(self):
+        from pyvc.sym import Unsupported
+        raise Unsupported("iteration over a symbolic-length entry list outside the cut loop")
+
+
+class _KBlob:
+    def __init__(self, k):
+        self.k = term(k)
+        self.sym_length = SymInt(_Z(self.k))
+
+
+class _KEntry:
+    """Entry k: writes / encodes to one opaque blob of Z(k) bytes."""
+
+    def __init__(self, k):
+        self.blob = _KBlob(k)
+
+    def WriteTo(self, output):
+        output.write(self.blob)
+
+    def Encode(self):
+        return self.blob
+
+
+class _AbsView:
+    def __init__(self, owner):
+        self.owner = owner
+        self.sym_length = SymInt(owner.nbytes)
+
+
+class _AbsIO:
+    """Abstraction of the payload buffer: what was written before the first entry (`head`, atoms), which entries were written in which order
+    (`log`, a symbolic-length list of entry indices), how many bytes in all (`nbytes`), and obligations about size prefixes."""
+
+    prefixed = False
+
+    def __init__(self, initial=b""):
+        from pyvc.sym import SymList
+        self.head = []
+        self.log = SymList(z3.K(z3.IntSort(), z3.IntVal(-1)), 0)
+        self.nbytes = z3.IntVal(0)
+        self.pend = None
+        self.phase = "head"
+        self.goals = []
+        self.problems = []
+
+    def write(self, x):
+        if isinstance(x, leb.ULEB):
+            self.nbytes = self.nbytes + leb.uleblen(x.value)
+            if self.phase == "head":
+                self.head.append(x)
+            elif self.pend is None:
+                self.pend = x
+            else:
+                self.problems.append("two integers in a row among the entries")
+        elif isinstance(x, _KBlob):
+            self.phase = "entries"
+            if self.prefixed:
+                self.goals.append(("entry-size-prefix", (self.pend.value == _Z(x.k)) if self.pend is not None else z3.BoolVal(False)))
+            elif self.pend is not None:
+                self.problems.append("an integer written between the entries of a section whose entries carry no size prefix")
+            self.pend = None
+            self.log.append(SymInt(x.k))
+            self.nbytes = self.nbytes + _Z(x.k)
+        elif isinstance(x, _AbsView):
+            self.problems.append("a buffer written into the payload")
+        else:
+            n = len(x) if isinstance(x, (bytes, bytearray)) else 1
+            self.nbytes = self.nbytes + n
+            (self.head if self.phase == "head" else self.problems).append(x if self.phase == "head" else "raw bytes written among the entries")
+
+    def getbuffer(self):
+        return _AbsView(self)
+
+    getvalue = getbuffer
+
+
+class _RecIO:
+    def __init__(self):
+        self.rec = []
+
+    def write(self, x):
+        self.rec.append(x)
+
+
+def _len3(x):
+    n = getattr(x, "sym_length", None)
+    return n if n is not None else leb.sym_len(x)
+
+
+@family("C19.frame.unbounded", props=["C19", "C07"], functions=[W + f"::{s}.WriteTo" for s, _, _, _ in _SECTIONS],
+        assumptions=[SHIMS, "modular cut: WriteInteger is replaced by its contract (C19.leb.unsigned / C19.leb.write); its precondition is an obligation of the writer",
+                     "the number n >= 1 of entries is SYMBOLIC (no bound; n and the payload stay below 2^32); entry i writes / encodes to one opaque blob of Z(i) >= 0 bytes",
+                     "entry loop cut mechanically (pyvc.loopcut) at the invariant Inv(k): the payload buffer holds uleb(n), then entries 0..k-1 in order (entry log: log[i] = i, proved for a fresh index), "
+                     "each directly preceded by uleb(Z(i)) in the code section, T(k) bytes in all with T(0) = 0, T(k+1) = T(k) + Z(k) [+ uleblen(Z(k))]; no half-written prefix at an iteration boundary",
+                     "the payload buffer is abstracted to (head atoms, entry log, byte count): raw bytes or buffers written among the entries are failures"])
+def frame_unbounded(R):
+    """Each section writer, for any number n >= 1 of entries: the output is [id] ++ uleb(|P|) ++ P with P = uleb(n) ++ entries in order (each code body
+    preceded by uleb(|body|)) -- by induction over the entries (loop cut), not by enumerating entry counts."""
+    from pyvc import loopcut
+    from pyvc.sym import SymList, seq_view, All
+    for sname, add, sid, prefixed in _SECTIONS:
+        cls = resolve(W + "::" + sname)
+        FN = W + f"::{sname}.WriteTo"
+        cutf = loopcut.cut(cls.WriteTo, 0)
+        probe = cls()
+        lists = [k for k, v in vars(probe).items() if isinstance(v, list)]
+        if len(lists) != 1:
+            raise Missing(f"{sname}: cannot identify the entry list ({lists})")
+        lname = lists[0]
+        AbsIO = type("_AbsIO_" + sname, (_AbsIO,), dict(prefixed=prefixed))
+        FakeIO = type("FakeIO", (), dict(BytesIO=AbsIO))
+
+        def cut_ctx(stub, FakeIO=FakeIO):
+            return patched(_mod(), bytes=sym_bytes, len=_len3, io=FakeIO, WriteInteger=stub)
+
+        def T_axioms(ctx, k, n, prefixed=prefixed):
+            k = term(k)
+            step = _Z(k) + (leb.uleblen(_Z(k)) if prefixed else 0)
+            ctx.assume(z3.And(_TS(z3.IntVal(0)) == 0, z3.Implies(k >= 0, z3.And(_Z(k) >= 0, _TS(k + 1) == _TS(k) + step))))
+
+        def section(n, cls=cls, lname=lname):
+            sec = cls()
+            vars(sec)[lname] = _SymEntries(n)
+            return sec
+
+        def havoc(ctx, n, k, AbsIO=AbsIO):
+            c = AbsIO()
+            c.phase = "entries"
+            c.head = [leb.ULEB(n.t)]
+            LOG = z3.Array("LOG", z3.IntSort(), z3.IntSort())
+            c.log = SymList(LOG, k)
+            c.nbytes = leb.uleblen(n.t) + _TS(term(k))
+            inv = All(0, k, lambda i: LOG[i] == i)
+            return c, inv
+
+        names = {}
+
+        def run_init(ctx, names=names):
+            n = ctx.int("n")
+            ctx.assume(z3.And(n.t >= 1, n.t < 2 ** 32))
+            sec, out, stub = section(n), _RecIO(), _LebCut()
+            with cut_ctx(stub):
+                kind, _, loc = cutf.prologue(sec, out)
+                it = cutf.iterable(**{k: v for k, v in loc.items() if k in cutf.params})
+            bufs = [k for k, v in loc.items() if isinstance(v, _AbsIO)]
+            if kind != "next" or len(bufs) != 1:
+                return [("init.reaches-the-loop", False, f"prologue ended with {kind}; payload buffers {bufs}")]
+            names["buf"] = bufs[0]
+            c = loc[bufs[0]]
+            return [("init.count-first", z3.And(z3.BoolVal(len(c.head) == 1 and isinstance(c.head[0], leb.ULEB) and not c.problems), c.head[0].value == n.t) if c.head and isinstance(c.head[0], leb.ULEB) else False),
+                    ("init.no-entry-yet", z3.And(c.log.n == 0, c.nbytes == leb.uleblen(n.t))),
+                    ("init.nothing-written-to-the-output", not out.rec),
+                    ("init.ranges-over-all-entries", it is vars(sec)[lname]),
+                    ("init.leb-precondition", z3.And(*stub.requires))]
+
+        def replay(model, clause, sname=sname, add=add):
+            n = max(1, min(int(model.get("n", 3)), 300))
+            return script("""
+                import io, nsl.WebAssembly as W
+                {{dec}}
+                class E:
+                    def __init__(s, n): s.n = n
+                    def WriteTo(s, o): o.write(b'\\x2a' * s.n)
+                    def Encode(s): return memoryview(b'\\x2a' * s.n)
+                def ulen(v):
+                    n = 1
+                    while v >= 128: v >>= 7; n += 1
+                    return n
+                bad = None
+                for sizes in ([1] * {{n}}, [0, 130, 2], [200] * 130, [3], [20000, 1]):
+                    sec = getattr(W, {{sname}})()
+                    for n in sizes: getattr(sec, {{add}})(E(n))
+                    out = io.BytesIO(); sec.WriteTo(out); bs = out.getvalue()
+                    size, p = udec(bs, 1); cnt, q = udec(bs, p)
+                    expected = (q - p) + sum(n + (ulen(n) if {{sname}} == 'CodeSection' else 0) for n in sizes)
+                    if bs[0] != getattr(W, {{sname}}).sectionId or size != len(bs) - p or cnt != len(sizes) or len(bs) - p != expected:
+                        bad = (sizes[:6], len(sizes), 'size field', size, 'payload', len(bs) - p, 'expected', expected, 'count', cnt); break
+                    if {{sname}} == 'CodeSection':
+                        pos = q
+                        for n in sizes:
+                            v, pos = udec(bs, pos)
+                            if v != n: bad = (sizes[:6], len(sizes), 'a body of', n, 'bytes is announced as', v); break
+                            pos += n
+                        if bad: break
+                print({{sname}}, 'first bad entry list:', bad)
+                if bad: print('REPLAY-CONFIRMED')
+                """.replace("{{dec}}", leb.PY_DECODERS), sname=sname, add=add, n=n)
+
+        verify(R, f"C19.frame.unbounded.{sname}", FN, run_init, replay, label="loop-cut")
+        if "buf" not in names:
+            continue
+        bname = names["buf"]
+
+        def run_pres(ctx):
+            n, k, j = ctx.int("n"), ctx.int("k"), ctx.int("j")
+            ctx.assume(z3.And(n.t >= 1, n.t < 2 ** 32, k.t >= 0, k.t < n.t))
+            T_axioms(ctx, k, n)
+            c, inv = havoc(ctx, n, k)
+            ctx.assume(inv.at(j.t))
+            ctx.assume(z3.And(_Z(k.t) < 2 ** 32))
+            sec, out, stub = section(n), _RecIO(), _LebCut()
+            state = {"self": sec, "output": out, bname: c}
+            with cut_ctx(stub):
+                kind, _, loc = cutf.step(cut_elem_=_KEntry(k.t), **state)
+            c2 = loc[bname]
+            arr, ln = seq_view(c2.log)
+            goals = [("preserve.completes-the-iteration", kind in ("next", "continue")),
+                     ("preserve.same-buffer", c2 is c and not c.problems, "; ".join(map(str, c.problems))),
+                     ("preserve.one-more-entry-in-order", z3.And(ln == k.t + 1, All(0, k.t + 1, lambda i: arr[i] == i).at(j.t))),
+                     ("preserve.no-half-written-prefix", c2.pend is None),
+                     ("preserve.byte-count", c2.nbytes == leb.uleblen(n.t) + _TS(k.t + 1)),
+                     ("preserve.nothing-written-to-the-output", not out.rec),
+                     ("preserve.leb-precondition", z3.And(*stub.requires))]
+            return goals + [(f"preserve.{g[0]}", g[1]) for g in c.goals]
+
+        verify(R, f"C19.frame.unbounded.{sname}", FN, run_pres, replay, label="loop-cut")
+
+        def run_exit(ctx, sid=sid):
+            n, j = ctx.int("n"), ctx.int("j")
+            ctx.assume(z3.And(n.t >= 1, n.t < 2 ** 32))
+            c, inv = havoc(ctx, n, n.t)
+            ctx.assume(inv.at(j.t))
+            ctx.assume(z3.And(c.nbytes >= 0, c.nbytes < 2 ** 32))           # (the whole section stays below 2^32 bytes)
+            sec, out, stub = section(n), _RecIO(), _LebCut()
+            state = {"self": sec, "output": out, bname: c}
+            with cut_ctx(stub):
+                kind, val, loc = cutf.epilogue(**state)
+            rec = out.rec
+            shape = len(rec) == 3 and isinstance(rec[1], leb.ULEB) and isinstance(rec[2], _AbsView) and rec[2].owner is c
+            arr, ln = seq_view(c.log)
+            return [("exit.id-size-payload", shape, f"written to the output: {[type(x).__name__ for x in rec]}"),
+                    ("exit.id", bool(rec) and isinstance(rec[0], (bytes, bytearray)) and bytes(rec[0]) == bytes([sid])),
+                    ("exit.size-is-payload-length", (rec[1].value == leb.uleblen(n.t) + _TS(n.t)) if shape else False),
+                    ("exit.payload-untouched", z3.And(ln == n.t, All(0, n.t, lambda i: arr[i] == i).at(j.t), z3.BoolVal(not c.problems and c.pend is None))),
+                    ("exit.leb-precondition", z3.And(*stub.requires))]
+
+        verify(R, f"C19.frame.unbounded.{sname}", FN, run_exit, replay, label="loop-cut")
